@@ -148,6 +148,17 @@ impl FinCase {
                 }
                 self.cum_ifin.extend(ev.ifin.iter().copied());
                 self.cum_iskip.extend(ev.iskip.iter().copied());
+                // D27 coverage: a block implicitly finalized next to a notarized sibling, both arrival orders
+                for b in &ev.ifin {
+                    if self.spec.notar.iter().any(|n| n.0 == b.0 && n.1 != b.1) {
+                        rec.count("fin:ifin-with-notarized-sibling:notar-first");
+                    }
+                }
+                if let FOp::Notar(b) = op {
+                    if !below && self.cum_ifin.iter().any(|f| f.0 == b.0 && f.1 != b.1) {
+                        rec.count("fin:ifin-with-notarized-sibling:notar-late");
+                    }
+                }
                 let hi = self.t.highest_finalized_slot().inner();
                 let fu = self.t.first_unpruned_slot().inner();
                 rec.oracle(hi >= self.last_hi, "fin-highest-decreased", || format!("{line}: highest finalized slot went {} -> {hi}", self.last_hi));
@@ -440,7 +451,7 @@ fn main() {
     }
 
     // ---- shape fin-scripted: the kernel-evaluated witnesses of Props/C08.lean (`sampleHistory`,
-    // `genesis_report_depends_on_order`, `unsafe_history_not_exact`) on the real tracker; mutators are called
+    // `genesis_report_depends_on_order`, `unsafe_history_not_exact`, `d27_runs_without_panic`) on the real tracker; mutators are called
     // below the watermark as well (release semantics: ignored)
     let scripted_fin: Vec<(&str, Vec<FOp>)> = vec![
         (
@@ -454,6 +465,10 @@ fn main() {
         ("genesis-first", vec![FOp::Parent((1, 1), (0, 0)), FOp::FastFinal((1, 1))]),
         ("genesis-late", vec![FOp::FastFinal((1, 1)), FOp::Parent((1, 1), (0, 0))]),
         ("unsafe", vec![FOp::FastFinal((1, 1)), FOp::FastFinal((2, 2)), FOp::Parent((3, 3), (1, 1)), FOp::FastFinal((3, 3))]),
+        // D27 (`d27First` / `d27Late`): B' = (4,5) notarized, B = (4,4) implicitly finalized through C = (8,9);
+        // the pinned tracker panicked in `handle_implicitly_finalized` / `mark_notarized`
+        ("d27-first", vec![FOp::Notar((4, 5)), FOp::Parent((8, 9), (4, 4)), FOp::FastFinal((8, 9))]),
+        ("d27-late", vec![FOp::Parent((8, 9), (4, 4)), FOp::FastFinal((8, 9)), FOp::Notar((4, 5))]),
     ];
     for (name, ops) in &scripted_fin {
         rec.begin_case("fin-scripted");
@@ -467,6 +482,15 @@ fn main() {
                 "sample" => c.cum_fin == vec![(3, 3), (4, 4)] && c.cum_ifin == vec![(1, 1)] && c.cum_iskip == vec![2] && c.last_fu == 4,
                 "genesis-first" => rep == vec![(1, 1), (0, 0)],
                 "genesis-late" => rep == vec![(1, 1)],
+                "d27-first" | "d27-late" => {
+                    c.cum_fin == vec![(8, 9)]
+                        && c.cum_ifin == vec![(4, 4)]
+                        && c.cum_iskip == vec![5, 6, 7]
+                        && c.last_hi == 8
+                        && c.last_fu == 0
+                        && abstract_status(&c.t).contains(&"4:D:4".to_string())
+                        && c.t.status().iter().any(|(s, tag, h)| s.inner() == 4 && *tag == 3 && h.as_ref().map(hid) == Some(4))
+                }
                 _ => rep == vec![(1, 1), (2, 2), (3, 3)] && c.cum_iskip.is_empty(),
             };
         rec.oracle(ok, "fin-witness-differs", || {
@@ -542,6 +566,27 @@ fn main() {
             POp::Block((2, 5), (1, 4)),
             POp::Block((1, 4), (0, 0)),
             POp::Cert(CK::N, 1, 4),
+        ],
+        // D27 at pool level, the certificates a node holds in the equivocation scenario: notarization of B' = (4,5),
+        // notar-fallback of B = (4,4), skip 5..7, block C = (8,9) on B, fast-finalization of C
+        vec![
+            POp::Cert(CK::N, 4, 5),
+            POp::Cert(CK::NF, 4, 4),
+            POp::Cert(CK::S, 5, 0),
+            POp::Cert(CK::S, 6, 0),
+            POp::Cert(CK::S, 7, 0),
+            POp::Block((8, 9), (4, 4)),
+            POp::Cert(CK::FF, 8, 9),
+            POp::Query(12),
+        ],
+        // ... and with the certificate of B' arriving after B was implicitly finalized
+        vec![
+            POp::Cert(CK::NF, 4, 4),
+            POp::Block((8, 9), (4, 4)),
+            POp::Cert(CK::FF, 8, 9),
+            POp::Cert(CK::N, 4, 5),
+            POp::Cert(CK::NF, 4, 5),
+            POp::Query(12),
         ],
     ];
     for ops in &scripted {
